@@ -67,12 +67,19 @@ def mk_args(c, inp, outp):
     a.quiet = True
     return a
 
-def run_once(c, targets):
+def run_once(c, targets, perturb=None):
     _N[0] += 1
     inp = os.path.join(_WD[0], 'in%d.fasta' % _N[0])
     outp = os.path.join(_WD[0], 'out%d.fasta' % _N[0])
     write_fasta(inp, targets, c.get('width', 0))
     del _log[:]
+    # put the process-global generator into a different state before every run, so that two runs can only
+    # agree through the tool's own seeding (--seed), never through an inherited ambient state
+    if perturb is None:
+        perturb = 7919 * _N[0] + 13
+    random.seed(perturb)
+    for _ in range(perturb % 5):
+        random.random()
     try:
         d = DF.DecoyFasta.from_args(mk_args(c, inp, outp))
         d.main()                      # == cli.decoy_fasta(args)
@@ -90,9 +97,10 @@ def run_once(c, targets):
 def handle(c):
     k = c['kind']
     if k == 'run':
-        out = {'runs': [run_once(c, ts) for ts in c['orders']]}
+        pt = c.get('perturb') or [None, None, None]
+        out = {'runs': [run_once(c, ts, pt[k % len(pt)]) for k, ts in enumerate(c['orders'])]}
         if c.get('rerun'):
-            out['rerun'] = run_once(c, c['orders'][0])
+            out['rerun'] = run_once(c, c['orders'][0], pt[2 % len(pt)])
         return out
     d = DF.DecoyFasta(None, None, c.get('method', 'reverse'), c.get('enzyme'), c.get('nterm', True),
                       c.get('cterm', True), c.get('pattern', '').split(','), 30, None, 'DECOY_', 'prefix',
